@@ -41,7 +41,8 @@ pub fn transform(x: f64, t: usize) -> f64 {
 pub const TRANSFORMS: [&str; 8] = ["x", "x+100", "x-7.5", "x*2^-10", "x*1000", "x*2^-60", "x*2^40", "1000+x"];
 
 /// all abscissa lists: (pattern description, xs)
-pub fn abscissa_lists(thorough: bool) -> Vec<Vec<f64>> {
+/// returns the lists and the index of the first "regularity" list (those take the ordinate alphabet at one scale only)
+pub fn abscissa_lists(thorough: bool) -> (Vec<Vec<f64>>, usize) {
     let mut out = vec![];
     let maxn = if thorough { 6 } else { 5 };
     let nt = if thorough { 8 } else { 7 };
@@ -75,7 +76,39 @@ pub fn abscissa_lists(thorough: bool) -> Vec<Vec<f64>> {
             out.push(base.iter().map(|x| x * 3e5).collect());
         }
     }
-    out
+    let reduced_from = out.len();
+    // regularity of the grid as a dimension of its own (fast paths for evenly spaced tables):
+    // (a) every sequence of interval widths over {1,2,3} - includes uneven grids whose first, last and mean width coincide;
+    let wl = if thorough { 5 } else { 4 };
+    for len in 3..=wl {
+        for code in 0..3usize.pow(len as u32) {
+            let w: Vec<f64> = (0..len).map(|i| [1.0, 2.0, 3.0][(code / 3usize.pow(i as u32)) % 3]).collect();
+            if w.iter().all(|v| *v == w[0]) {
+                continue; // even grids are in the subsets above
+            }
+            let mut x = 0.0;
+            let mut xs = vec![x];
+            for v in &w {
+                x += v;
+                xs.push(x);
+            }
+            out.push(xs);
+        }
+    }
+    // (b) almost even grids: one knot of an even grid moved by a relative 1e-9, -3e-11 or 2e-13 of the width (binary and
+    //     decimal widths), and an even grid in a width that is not representable (rounding noise only)
+    for n in 3..=5usize {
+        for j in 0..n {
+            for d in [1e-9, -3e-11, 2e-13] {
+                for h in [1.0, 0.1] {
+                    out.push((0..n).map(|i| (i as f64 + if i == j { d } else { 0.0 }) * h).collect());
+                }
+            }
+        }
+        out.push((0..n).map(|i| 0.3 + i as f64 * 0.1).collect());
+        out.push((0..n).map(|i| 1e6 + i as f64 * 0.1).collect());
+    }
+    (out, reduced_from)
 }
 
 /// ordinate patterns for long knot lists
@@ -91,8 +124,11 @@ fn long_pattern(p: usize, i: usize, x: f64) -> f64 {
 }
 
 /// ordinates for a given abscissa list, chosen through the explorer
-pub fn pick_ordinates(cx: &mut Cx, xs: &[f64]) -> (Vec<f64>, &'static str) {
+pub fn pick_ordinates(cx: &mut Cx, xs: &[f64], reduced: bool) -> (Vec<f64>, &'static str) {
     let n = xs.len();
+    if reduced {
+        return ((0..n).map(|_| *cx.pick(&Y_ALPHA)).collect(), "alphabet");
+    }
     if n > 6 {
         let p = cx.choose(6);
         let shift = cx.choose(7);
